@@ -341,7 +341,7 @@ func extractFields(ctx *Context, structType reflect.Type, indexPath []int, field
 			localPath[len(indexPath)] = i
 			field := newStructField(reflectField, localPath, ctx.Configuration.Iterator.FieldNameStyle)
 			if field.OmitBehavior != configuration.OmitFieldAlways {
-				if reflectField.Anonymous {
+				if reflectField.Anonymous && reflectField.Type.Kind() == reflect.Struct {
 					field.IsAnonymous = true
 					innerStructType := reflectField.Type
 					fields = extractFields(ctx, innerStructType, localPath, fields)
